@@ -8,9 +8,18 @@ the extracted AST (`_Interp`; nothing from the repository is imported or run) on
 table of field values the schedule format documents.
 
 R1  geodesic argument roles at the distance plausibility rule (T-ROLE); the distance is
-    between origin and destination.  Roles are resolved through local aliases, so the
-    construct key names roles, not argument text.  (That the *distance* component, in km,
-    is what the thresholds see is decided by R7's evaluation.)
+    between origin and destination.  Every inverse-geodesic call that runs on behalf of
+    `_distance_check` is examined - written there or in a function reached from it through
+    resolved calls (any file, any depth up to 3) - and each of its four slots (positional,
+    `*pair` of a tuple-valued expression, or by slot name) is followed back, through locals,
+    tuple unpacking and the parameters of the helpers on the way, to an expression over the
+    parameters of `_distance_check`.  The role (lat / lon) is that of the value that arrives,
+    not of a parameter name on the way, so the construct key names roles, not argument text,
+    and the finding is stated at `_distance_check`, the function that supplies the airports'
+    coordinates, wherever the call is written.  End points: slots 0/1 are coordinates of one
+    of origin / destination only, slots 2/3 of the other one only (the distance is symmetric;
+    which end comes first is immaterial).  (That the *distance* component, in km, is what the
+    thresholds see is decided by R7's evaluation.)
 R2  open-ended effective dates.  For each of the `effective_from` / `effective_to`
     parameters of _add_flight and _add_schedule the value passed by the importer is
     followed back (through locals, tuple results and helper methods of any class) to a
@@ -20,13 +29,27 @@ R2  open-ended effective dates.  For each of the `effective_from` / `effective_t
     1 January (from) / 31 December (to).  Also (program-wide in the thorough tier): once
     `x_d = opt or default` exists in a function the raw optional is not passed to a callee.
 R3  leg roles and instants.  The value stored in each timestamp column is resolved to one
-    expression; the departure instant uses only departure-role names and the origin's
-    zone, the arrival instant only arrival-role names, the destination's zone, and is the
-    only user of the arrival day offset.  The zone-aware instant is built *per flight date
-    from that date*: the value that is localised depends on the date of the per-day loop
-    (a UTC offset taken once per flight is wrong across a DST change).  Wall-clock
-    arithmetic first, localisation last (`<zone>.utcoffset(<value>)` counts as localising that
-    value).  hour→hours, minute→minutes.  The INSERT statements are *computed* (literals,
+    expression over the parameters and the loop date: single-definition locals are
+    substituted, a local that is bound and then updated (`t = …; t += d`, `if c: t = t + d`)
+    has the value it has at the append (statements executed in order along the path to it),
+    and calls of small repository functions - functions nested in `_add_schedule` (their free
+    variables are its locals), module functions, methods - are replaced by what they return,
+    with the branches a constant argument does not take removed.  The departure instant uses
+    only departure-role names and the origin's zone, the arrival instant only arrival-role
+    names, the destination's zone, and is the only user of the arrival day offset.  The
+    zone-aware instant is built *per flight date from that date*: the value that is localised
+    depends on the date of the per-day loop (a UTC offset taken once per flight is wrong
+    across a DST change).  Wall-clock arithmetic first, localisation last: nothing that counts
+    *elapsed* time is added to the instant once it carries its zone - a timedelta / Timedelta
+    added to a zone-aware pandas Timestamp (the loop date of pd.date_range and what is
+    derived from it) is exactly 24 h per day, and so is anything added to its epoch seconds or
+    to its UTC conversion, whereas the schedule's times and the arrival day offset are
+    wall-clock quantities of the airport's zone.  Not elapsed-time arithmetic, by the kind of
+    the operands: `pd.DateOffset` over calendar units, `+ timedelta` on a datetime.datetime
+    that still carries its ZoneInfo (both move the wall clock and look the offset up again),
+    the difference of two instants, `<value> - <zone>.utcoffset(<value>)` (which counts as
+    localising that value); an addend or a value of unknown kind is undecided.
+    hour→hours, minute→minutes.  The INSERT statements are *computed* (literals,
     f-strings, joins, repetition, module constants and single-definition locals folded by the
     checker's evaluator), so column lists are what the database sees wherever they are
     spelled; columns, placeholders and the value tuple / NamedTuple, and the arguments passed
@@ -60,7 +83,8 @@ R6  expansion shape: inclusive daily pd.date_range over the two effective dates
     'P'/blank/0/1/2, open-ended markers and YYYYMMDD dates, HHMM times, flight number,
     end-point roles.
 R7  plausibility rule, by evaluation: _distance_check is run by the checker's interpreter
-    with the inverse-geodesic call answered by (azimuth, azimuth, metres), on a grid with a
+    with the inverse-geodesic call (four coordinate slots on a Geod object, however written)
+    answered by (azimuth, azimuth, metres), on a grid with a
     point in every region of: geodesic distance against the zero threshold, stated distance
     against 0, absolute difference against its threshold, relative difference against its
     threshold - with the documented thresholds (defaults) and with a second set passed
@@ -79,12 +103,12 @@ import itertools
 import re
 from fractions import Fraction
 
-from ..astutil import (LOG_CALLS, ancestors, call_name, calls_in, conjuncts, const_value, guards_of, names_in, norm,
-                       single_def_value, stmt_of, stores_to, walk_no_nested)
+from ..astutil import (LOG_CALLS, ancestors, call_name, calls_in, conjuncts, const_value, guards_of, is_within, local_defs,
+                       names_in, norm, single_def_value, stmt_of, stores_to, walk_no_nested)
 from ..cfg import CFG
 from ..loader import dotted_name
 from ..resolve import resolve_call
-from ..roles import check_geod_call, geod_calls
+from ..roles import GEOD_SIG, expr_role, is_geod_receiver
 
 OAG = 'missions/oag.py'
 WDB = 'missions/writable_database.py'
@@ -257,6 +281,9 @@ class _Sym:
         """env after the block, or None when no path falls out of it"""
         for st in stmts:
             if isinstance(st, ast.Return):
+                if st.value is not None:
+                    for c in calls_in(st.value):
+                        sites[id(c)] = dict(env)
                 rets.append((list(guards), self.ev(fi, st.value, env) if st.value is not None else ast.Constant(value=None)))
                 return None
             if isinstance(st, (ast.Raise, ast.Continue, ast.Break)):
@@ -356,7 +383,8 @@ class _Sym:
             return None
         ps = callee.params
         env = {}
-        if callee.cls is not None and not any('staticmethod' in d for d in decs) and ps:
+        nested = callee.qualname.rsplit('.', 1)[0].endswith('<locals>')   # a function defined inside a method is no method
+        if callee.cls is not None and not nested and not any('staticmethod' in d for d in decs) and ps:
             if not isinstance(c.func, ast.Attribute):
                 return None
             env[ps[0]] = c.func.value
@@ -640,6 +668,8 @@ class _Interp:
     def __init__(self, prog):
         self.prog = prog
         self.steps = 0
+        self._handling = []   # exceptions being handled, innermost last (what a bare `raise` re-raises)
+        self._consts = {}     # module constants already evaluated
 
     def raw_node(self, fi):
         return _raw_index(fi.module)['functions'].get(fi.qualname, fi.node)
@@ -721,10 +751,14 @@ class _Interp:
         raw = _raw_index(m)
         if name in raw['functions']:
             return _Fn(_Ctx(m), raw['functions'][name], [])
-        if name in raw['constants'] and name not in m.classes:
-            return self.eval(raw['constants'][name], _Ctx(m), [{}])
-        if name in m.constants:
-            return self.eval(m.constants[name], fi, [{}])
+        if (name in raw['constants'] and name not in m.classes) or name in m.constants:
+            # a module constant is one object, bound when the module is imported
+            key = (id(m), name)
+            consts = self.__dict__.setdefault('_consts', {})
+            if key not in consts:
+                consts[key] = self.eval(raw['constants'][name], _Ctx(m), [{}]) \
+                    if (name in raw['constants'] and name not in m.classes) else self.eval(m.constants[name], fi, [{}])
+            return consts[key]
         r = self.prog.resolve_name(m, name)
         if r is not None and hasattr(r, 'methods'):
             return _ClassRef(r)
@@ -1025,7 +1059,9 @@ class _Interp:
             raise _Continue()
         elif isinstance(st, ast.Raise):
             if st.exc is None:
-                raise _Undecidable('bare raise')
+                if not self.__dict__.get('_handling'):
+                    raise _Undecidable('bare raise')
+                raise _Raised(self._handling[-1])
             x = self.eval(st.exc, fi, sc)
             if isinstance(x, type) and issubclass(x, BaseException):
                 x = x()
@@ -1044,7 +1080,11 @@ class _Interp:
                         if self.exc_matches(h, r.exc, fi, sc):
                             if h.name:
                                 sc[-1][h.name] = r.exc
-                            self.exec_block(h.body, fi, sc)
+                            self.__dict__.setdefault('_handling', []).append(r.exc)
+                            try:
+                                self.exec_block(h.body, fi, sc)
+                            finally:
+                                self._handling.pop()
                             break
                     else:
                         raise
@@ -1121,24 +1161,135 @@ def _may_be_none(prog, fi, leaf) -> bool:
     return 'None' in txt or 'Optional' in txt
 
 
+def _bind_frame(sym, fi, c, callee, env):
+    """environment of `callee` for the call `c` written in frame `fi` (whose own environment at the call is `env`):
+    parameter -> argument expression over the root frame's names; None when the binding is not static"""
+    a = callee.node.args
+    if a.vararg or a.kwarg or any(isinstance(x, ast.Starred) for x in c.args) or any(k.arg is None for k in c.keywords):
+        return None
+    decs = callee.decorators()
+    ps = list(callee.params)
+    new = {}
+    if callee.cls is not None and not any('staticmethod' in d for d in decs) and ps:
+        if not isinstance(c.func, ast.Attribute):
+            return None
+        new[ps[0]] = sym.ev(fi, c.func.value, env)
+        ps = ps[1:]
+    if len(c.args) > len(ps):
+        return None
+    for p, v in zip(ps, c.args):
+        new[p] = sym.ev(fi, v, env)
+    for k in c.keywords:
+        if k.arg not in ps:
+            return None
+        new[k.arg] = sym.ev(fi, k.value, env)
+    pos = a.posonlyargs + a.args
+    for arg, d in list(zip(pos[len(pos) - len(a.defaults):], a.defaults)) + \
+            [(x, d) for x, d in zip(a.kwonlyargs, a.kw_defaults) if d is not None]:
+        new.setdefault(arg.arg, sym.ev(callee, d, {}))
+    return new if all(p in new for p in ps) else None
+
+
+def geodesic_sites(prog, root, max_depth: int = 3):
+    """Every geodesic call that runs on behalf of `root`: written in root itself or in a function reached from it
+    through resolved calls.  -> [(top, fi, call, kind, raw, args)]: `top` is the call in root through which the site is
+    reached (the geodesic call itself when it is written in root), `fi` the function the geodesic call is written in,
+    `raw` its four slots as written, `args` the same slots as expressions over *root's* parameters - locals replaced by what they hold, the
+    parameters of every helper on the way replaced by the arguments given at its call site (None for a slot that is
+    missing or whose value cannot be followed)."""
+    sym = _Sym(prog)
+    out = []
+
+    def visit(fi, env, top, stack):
+        sites, rets = {}, []
+        sym.block(fi, fi.node.body, dict(env), rets, [], sites)
+        for c in calls_in(fi.node):
+            here = sites.get(id(c))
+            kind = c.func.attr if isinstance(c.func, ast.Attribute) and c.func.attr in ('inv', 'fwd') else None
+            if kind:
+                if is_geod_receiver(prog, fi, c.func.value):
+                    follow = lambda a: None if here is None else sym.expand(sym.ev(fi, a, here))  # noqa: E731
+                    slots, complete = [], True
+                    for a in c.args:
+                        if isinstance(a, ast.Starred):
+                            v = follow(a.value)   # `*pair`: the components of the tuple the value denotes
+                            if isinstance(v, (ast.Tuple, ast.List)) and not any(isinstance(x, ast.Starred) for x in v.elts):
+                                slots += [(x, x) for x in v.elts]
+                            else:
+                                complete = False
+                                break
+                        else:
+                            slots.append((a, follow(a)))
+                    for i in range(len(slots), 4):
+                        kv = next((k.value for k in c.keywords if k.arg == GEOD_SIG[kind][1][i]), None) if complete else None
+                        slots.append((kv, follow(kv) if kv is not None else None))
+                    out.append((top or c, fi, c, kind, [s[0] for s in slots[:4]], [s[1] for s in slots[:4]]))
+                    continue
+            if here is None or len(stack) >= max_depth:
+                continue
+            try:
+                callee = resolve_call(prog, fi, c)
+            except Exception:
+                callee = None
+            if callee is None or any(callee is s for s in stack):
+                continue
+            new = _bind_frame(sym, fi, c, callee, here)
+            if new is not None:
+                visit(callee, new, top or c, stack + [callee])
+    visit(root, {}, None, [root])
+    return out
+
+
+def _end_points(e) -> set[str]:
+    t = _idents(e)
+    return ({'origin'} if 'origin' in t else set()) | ({'destination'} if t & {'destination', 'dest'} else set())
+
+
 def _rule_r1(ctx, prog, dck):
-    sites = geod_calls(prog, [dck])
-    ctx.floor('C13-R1', len(sites), 1, 'geodesic call in _distance_check')
-    for fi, c, kind in sites:
-        res = check_geod_call(fi, c, kind)
+    sites = geodesic_sites(prog, dck)
+    ctx.floor('C13-R1', len(sites), 1, 'geodesic call in (or reached from) _distance_check')
+    for top, fi, c, kind, raw, args in sites:
+        # The finding is stated at _distance_check, the function that supplies the airports' coordinates: whether the
+        # inverse-geodesic call is written there or in a helper it calls, what matters is which coordinate of which
+        # airport arrives in which slot.
+        via = '' if fi is dck else f' (in {fi.qualname}, reached from line {top.lineno})'
+        res = []
+        for i, want in enumerate(GEOD_SIG[kind][0]):
+            if want is None:
+                continue
+            if raw[i] is None:
+                res.append((i, want, '<missing>', None, 'unresolved'))
+                continue
+            got = (expr_role(None, args[i]) if args[i] is not None and not any(getattr(x, '_opaque', False) for x in ast.walk(args[i]))
+                   else None) or expr_role(fi.node, raw[i])
+            shown = norm(raw[i]) if fi is dck or args[i] is None else f'{norm(raw[i])} = {norm(args[i])}'
+            res.append((i, want, shown, got, 'unresolved' if got is None else ('ok' if got == want else 'conflict')))
         confl = [r for r in res if r[4] == 'conflict']
         desc = ', '.join(f'arg{i}={got or "?"}' for i, want, txt, got, v in res)
-        ctx.ob('C13-R1', fi, f'GEOD.{kind}({desc})', not confl,
-               'longitude/latitude in the documented order' if not confl else
-               '; '.join(f'slot {i} expects {w} but receives `{t}` ({g})' for i, w, t, g, v in confl) +
+        ctx.ob('C13-R1', dck, f'GEOD.{kind}({desc})', not confl,
+               f'longitude/latitude in the documented order{via}' if not confl else
+               '; '.join(f'slot {i} expects {w} but receives `{t}` ({g})' for i, w, t, g, v in confl) + via +
                ' — with |lon| > 90 the distance is NaN and every stated distance is accepted; otherwise a '
-               'plausible row is dropped as suspicious', line=c.lineno)
+               'plausible row is dropped as suspicious', line=top.lineno)
         # (that the *distance* component, converted to km, is what the thresholds are compared with is decided by R7,
         # which runs the function with a known geodesic answer)
-        ends = [_idents(_subst(fi.node, a)) & {'origin', 'destination', 'dest'} for a in c.args]
-        ok = len(ends) == 4 and ends[0] == ends[1] == {'origin'} and ends[2] == ends[3] and ends[2] and 'origin' not in ends[2]
-        ctx.ob('C13-R1', fi, 'distance is between origin and destination', bool(ok),
-               'origin pair then destination pair' if ok else 'end points mixed up', line=c.lineno, nontrivial=False)
+        if kind != 'inv':
+            continue
+        if any(a is None for a in args):
+            ctx.undecided('C13-R1', dck, f'GEOD.{kind}(...){via}', 'a coordinate argument of the geodesic call cannot be followed '
+                          'back to the airports given to _distance_check')
+        ends = [_end_points(a) for a in args]
+        if any(not e for e in ends):
+            i = next(i for i, e in enumerate(ends) if not e)
+            ctx.undecided('C13-R1', dck, f'GEOD.{kind}(...){via}', f'argument {i} `{norm(args[i])[:60]}` is not a coordinate of the '
+                          'origin or of the destination given to _distance_check')
+        # the geodesic distance is symmetric: which end comes first does not matter, only that each pair of slots is one
+        # end point and the two pairs are the two different end points
+        ok = all(len(e) == 1 for e in ends) and ends[0] == ends[1] and ends[2] == ends[3] and ends[0] != ends[2]
+        ctx.ob('C13-R1', dck, 'distance is between origin and destination', bool(ok),
+               'one end point per coordinate pair, origin and destination' if ok else
+               ('end points mixed up: the slots receive ' + ', '.join('/'.join(sorted(e)) for e in ends) + via),
+               line=top.lineno, nontrivial=False)
 
 
 def _rule_r2(ctx, prog, add, flt, sch):
@@ -1272,16 +1423,17 @@ def _localisations(e):
 def _date_loop(prog, sch):
     """(date_range call, the per-day loop over it, loop variable)"""
     dr = [c for c in calls_in(sch.node) if call_name(c).split('.')[-1] == 'date_range']
-    if len(dr) != 1:
-        return (dr[0] if dr else None), None, None
-    c = dr[0]
-    for lp in walk_no_nested(sch.node):
-        if isinstance(lp, ast.For) and isinstance(lp.target, ast.Name):
-            it = lp.iter
-            if any(x is c for x in ast.walk(it)) or (isinstance(it, ast.Name) and single_def_value(sch.node, it.id) is not None
-                                                      and any(x is c for x in ast.walk(single_def_value(sch.node, it.id)))):
-                return c, lp, lp.target.id
-    return c, None, None
+    found = []
+    for c in dr:   # the range that is iterated day by day (another date_range evaluated for something else is not it)
+        for lp in walk_no_nested(sch.node):
+            if isinstance(lp, ast.For) and isinstance(lp.target, ast.Name):
+                it = lp.iter
+                if any(x is c for x in ast.walk(it)) or (isinstance(it, ast.Name) and single_def_value(sch.node, it.id) is not None
+                                                          and any(x is c for x in ast.walk(single_def_value(sch.node, it.id)))):
+                    found.append((c, lp, lp.target.id))
+    if len(found) == 1:
+        return found[0]
+    return (dr[0] if dr else None), None, None
 
 
 def _row_values(prog, fi, row):
@@ -1738,6 +1890,197 @@ def _rule_written(ctx, prog, sch):
                               f'are buffered in self.{buf}')
 
 
+# ----------------------------------------------------------------------------------------------------
+# the stored instant as one expression: multiply-bound locals by execution along the path, helpers inlined
+# ----------------------------------------------------------------------------------------------------
+
+def _has_opaque(e) -> bool:
+    return any(getattr(x, '_opaque', False) for x in ast.walk(e))
+
+
+def _env_at(sym: _Sym, fi, target: ast.stmt):
+    """symbolic environment of fi just before `target`: the statements on the way to it are executed in order (so a name
+    that is bound, then updated - `t = f(..)` / `t += d` / `if c: t = t + d` - has the value it has *there*); entering a
+    loop, what the loop assigns is left as a plain name (its value of an earlier iteration).  None when `target` is not
+    reached by descending through if / loop / with / try bodies."""
+    def descend(stmts, env):
+        for i, st in enumerate(stmts):
+            if st is not target and not is_within(target, st):
+                continue
+            env = sym.block(fi, stmts[:i], env, [], [], {})
+            if env is None or st is target:
+                return env
+            if isinstance(st, (ast.For, ast.While)):
+                for t, _, _ in stores_to(st):
+                    for nm in names_in(t):
+                        env.pop(nm, None)
+            if isinstance(st, (ast.For, ast.While, ast.If, ast.With, ast.Try)):
+                for body in (st.body, getattr(st, 'orelse', []), getattr(st, 'finalbody', [])):
+                    if any(s_ is target or is_within(target, s_) for s_ in body):
+                        if isinstance(st, ast.With):
+                            for it in st.items:
+                                if it.optional_vars is not None:
+                                    for nm in names_in(it.optional_vars):
+                                        env[nm] = _opaque(nm)
+                        return descend(body, env)
+            return None
+        return None
+    return descend(fi.node.body, {})
+
+
+def _inline_helpers(sym: _Sym, fi, e):
+    """e (an expression of fi) with the calls of small repository functions - functions nested in fi, module functions,
+    methods - replaced by what they return (`_Sym.expand`); the free variables of a function nested in fi are fi's own
+    locals and are followed to their single definitions"""
+    try:
+        out = sym.expand(sym.ev(fi, e, {}))     # ev tags every call with its callee as resolved from fi
+    except RecursionError:
+        return e
+    pref = fi.qualname + '.<locals>.'
+
+    def close(n):
+        if isinstance(n, ast.Name) and isinstance(n.ctx, ast.Load):
+            q = getattr(getattr(n, '_fi', None), 'qualname', '')
+            if q.startswith(pref) and '.<locals>.' not in q[len(pref):]:
+                return _subst(fi.node, n)
+            return n
+        if isinstance(n, ast.AST):
+            new = _shell(n)
+            for f in n._fields:
+                setattr(new, f, close(getattr(n, f, None)))
+            return new
+        if isinstance(n, list):
+            return [close(x) for x in n]
+        return n
+    return close(out)
+
+
+def _stored_value(sym: _Sym, sch, v, at: ast.stmt | None):
+    """the value expression v of an inserted row, over the parameters of sch, the loop date and what cannot be followed"""
+    fv = _subst(sch.node, v)
+    params = set(sch.params)
+    multi = [n.id for n in ast.walk(fv) if isinstance(n, ast.Name) and isinstance(n.ctx, ast.Load) and n.id not in params
+             and len(local_defs(sch.node, n.id)) > 1]
+    if multi and at is not None:
+        env = _env_at(sym, sch, at)
+        if env is not None:
+            pv = sym.ev(sch, v, env)
+            if not _has_opaque(pv):
+                # names bound once *outside* the executed path (after it, or in a loop that was entered) keep their definitions
+                fv = _subst(sch.node, pv)
+    return _prune_decided(_inline_helpers(sym, sch, fv))
+
+
+def _truth(e):
+    """True / False when the test is decided by constants alone (a default that was passed into a helper), else None"""
+    if isinstance(e, ast.Constant) and isinstance(e.value, (bool, int, float, str, type(None))):
+        return bool(e.value)
+    if isinstance(e, ast.UnaryOp) and isinstance(e.op, ast.Not):
+        t = _truth(e.operand)
+        return None if t is None else not t
+    if isinstance(e, ast.BoolOp):
+        ts = [_truth(v) for v in e.values]
+        if isinstance(e.op, ast.And):
+            return False if False in ts else (True if all(t is True for t in ts) else None)
+        return True if True in ts else (False if all(t is False for t in ts) else None)
+    if isinstance(e, ast.Compare) and len(e.ops) == 1 and isinstance(e.left, ast.Constant) and isinstance(e.comparators[0], ast.Constant):
+        f = _CMPOPS.get(type(e.ops[0]))
+        try:
+            return bool(f(e.left.value, e.comparators[0].value)) if f else None
+        except Exception:
+            return None
+    return None
+
+
+def _prune_decided(e):
+    """e without the branches of conditional expressions whose test is decided by constants (the path a call with that
+    argument does not take)"""
+    if isinstance(e, ast.IfExp):
+        t = _truth(e.test)
+        if t is not None:
+            return _prune_decided(e.body if t else e.orelse)
+    if isinstance(e, ast.AST):
+        new = _shell(e)
+        for f in e._fields:
+            setattr(new, f, _prune_decided(getattr(e, f, None)))
+        return new
+    if isinstance(e, list):
+        return [_prune_decided(x) for x in e]
+    return e
+
+
+_CALENDAR_KW = {'years', 'months', 'weeks', 'days'}
+
+
+def _instant_kind(e, pandas_names: set[str], consts: dict, depth: int = 0):
+    """what kind of value a date-time expression denotes: 'pandas' (a pandas Timestamp: once it carries a zone, `+` adds
+    *elapsed* time), 'stdlib' (datetime.datetime: `+` moves the wall clock and keeps tzinfo, the UTC offset is looked up
+    again when the instant is taken), 'number' (epoch seconds and the like), or None (not known)"""
+    if depth > 6:
+        return None
+    k = lambda x: _instant_kind(x, pandas_names, consts, depth + 1)
+    if isinstance(e, ast.Name):
+        if e.id in pandas_names:
+            return 'pandas'
+        if e.id in consts:
+            return _instant_kind(consts[e.id], pandas_names, {}, depth + 1)
+        return None
+    if isinstance(e, ast.Constant):
+        return 'number' if isinstance(e.value, (int, float)) and not isinstance(e.value, bool) else None
+    if isinstance(e, ast.IfExp):
+        a, b = k(e.body), k(e.orelse)
+        return a if a == b else None
+    if isinstance(e, ast.BinOp):
+        a, b = k(e.left), k(e.right)
+        if 'number' in (a, b):
+            return 'number'
+        if isinstance(e.op, ast.Sub) and a in ('pandas', 'stdlib') and b in ('pandas', 'stdlib'):
+            return 'duration'
+        if isinstance(e.op, (ast.Add, ast.Sub)) and a in ('pandas', 'stdlib'):
+            return a
+        if isinstance(e.op, ast.Add) and b in ('pandas', 'stdlib'):
+            return b
+        return None
+    if isinstance(e, ast.Call):
+        nm = call_name(e).split('.')[-1]
+        if isinstance(e.func, ast.Attribute):
+            recv = e.func.value
+            if nm in ('timestamp', 'total_seconds', 'toordinal'):
+                return 'number'
+            if nm in ('tz_localize', 'tz_convert'):
+                return 'pandas'
+            if nm == 'to_pydatetime':
+                return 'stdlib'
+            if nm in ('replace', 'astimezone', 'normalize', 'floor'):
+                return k(recv)
+            if nm in ('combine', 'strptime', 'fromisoformat', 'fromtimestamp') and norm(recv).split('.')[-1] == 'datetime':
+                return 'stdlib'
+        if nm == 'datetime':
+            return 'stdlib'
+        if nm in ('Timestamp', 'to_datetime'):
+            return 'pandas'
+        if nm in ('int', 'float', 'round') and isinstance(e.func, ast.Name):
+            return 'number'
+    return None
+
+
+def _added_kind(e):
+    """what is added to an instant: 'elapsed' (timedelta / pd.Timedelta: a fixed number of seconds), 'calendar'
+    (pd.DateOffset over calendar units: moves the wall clock and looks the zone's offset up again), None (not known)"""
+    if isinstance(e, ast.UnaryOp) and isinstance(e.op, (ast.USub, ast.UAdd)):
+        return _added_kind(e.operand)
+    if isinstance(e, ast.BinOp) and isinstance(e.op, (ast.Mult, ast.Add, ast.Sub)):
+        ks = {_added_kind(s) for s in (e.left, e.right)} - ({None} if isinstance(e.op, ast.Mult) else set())
+        return next(iter(ks)) if len(ks) == 1 else None
+    if isinstance(e, ast.Call):
+        nm = call_name(e).split('.')[-1]
+        if nm in ('timedelta', 'Timedelta', 'to_timedelta'):
+            return 'elapsed'
+        if nm == 'DateOffset' and not e.args and e.keywords and all(kw.arg in _CALENDAR_KW for kw in e.keywords):
+            return 'calendar'
+    return None
+
+
 def _rule_r3(ctx, prog, add, flt, sch):
     rows = _schedule_rows(prog, sch)
     if rows is None:
@@ -1756,8 +2099,10 @@ def _rule_r3(ctx, prog, add, flt, sch):
            'same arity' if ok else 'column list and value tuple differ in length', nontrivial=False)
     offp = [p for p in sch.params if {'day', 'offset'} <= _tokens(p)]
     full = {}
+    sym = _Sym(prog)
+    at = stmt_of(app[0]) if app else None
     for col, v in zip(cols, vals):
-        fv = _subst(sch.node, v)
+        fv = _stored_value(sym, sch, v, at)
         full[col] = fv
         cf = role_conflict(col, fv) or role_conflict(col, v)
         toks = _tokens(col) & (_idents(v) | _idents(fv))
@@ -1802,17 +2147,8 @@ def _rule_r3(ctx, prog, add, flt, sch):
                 'per-day loop: the UTC offset is computed once per flight and reused for every date, so every instance on the other '
                 'side of a daylight-saving change from that date is stored one hour off'), line=stale[0][0].lineno if stale and hasattr(stale[0][0], 'lineno') else line)
         if per_day:
-            # wall-clock arithmetic first, localisation last: a pandas Timestamp that already carries a zone adds *elapsed*
-            # time, so anything added after the localisation is an hour off across a DST change
-            lset = {id(n) for n, _, _ in locs}
-            arith_after = [x for x in ast.walk(v) if isinstance(x, ast.BinOp) and isinstance(x.op, (ast.Add, ast.Sub))
-                           and any(id(y) in lset and getattr(getattr(y, 'func', None), 'attr', '') != 'utcoffset'
-                                   for side in (x.left, x.right) for y in ast.walk(side))
-                           and not (isinstance(x.op, ast.Sub) and _is_difference_of_instants(x, lset))]
-            ctx.ob('C13-R3', sch, f'{col}: zone attached after all wall-clock arithmetic', not arith_after,
-                   'nothing is added to the instant once it carries its zone' if not arith_after else
-                   'time is added to an instant that already carries its zone (elapsed-time arithmetic across a DST change)',
-                   line=line)
+            # wall-clock arithmetic first, localisation last
+            _rule_after_zone(ctx, sch, col, role, end, v, locs, loopvar, line)
         # hour -> hours, minute -> minutes
         pairs = []
         for c in ast.walk(v):
@@ -1883,6 +2219,74 @@ def _rule_r3(ctx, prog, add, flt, sch):
             ok = set(amap) == set(params)
             ctx.ob('C13-R3', add, f'{callee.name} receives {len(amap)} of {len(params)} arguments', ok,
                    'complete' if ok else 'argument count differs: positions shift', line=c.lineno, nontrivial=False)
+
+
+def _rule_after_zone(ctx, sch, col, role, end, v, locs, loopvar, line):
+    """Nothing that counts elapsed time is added to the instant once it carries its zone.  A zone-aware pandas Timestamp
+    adds *elapsed* time (`+ timedelta(days=1)` is exactly 24 h), and so does anything added to epoch seconds; the schedule's
+    times and its arrival day offset are wall-clock quantities of the airport's zone, so across a daylight-saving change the
+    result is an hour off.  Not elapsed-time arithmetic: a pd.DateOffset over calendar units, `+` on a datetime.datetime
+    that still carries its ZoneInfo (both move the wall clock and look the offset up again), the difference of two
+    instants, and `<value> - <zone>.utcoffset(<value>)`."""
+    construct = f'{col}: zone attached after all wall-clock arithmetic'
+    lset = {id(n) for n, _, _ in locs}
+    real = {id(n) for n, _, _ in locs if getattr(getattr(n, 'func', None), 'attr', '') != 'utcoffset'}
+    zone_of = {id(n): z for n, _, z in locs}
+    consts = getattr(sch.module, 'constants', {}) or {}
+    kind = lambda e: _instant_kind(e, {loopvar}, consts)
+    bad, unknown = [], []
+    for x in ast.walk(v):
+        if not (isinstance(x, ast.BinOp) and isinstance(x.op, (ast.Add, ast.Sub))):
+            continue
+        sides = [(a, b) for a, b in ((x.left, x.right), (x.right, x.left)) if any(id(y) in real for y in ast.walk(a))]
+        if not sides:
+            continue
+        if isinstance(x.op, ast.Sub) and (_is_difference_of_instants(x, lset) or kind(x.right) in ('pandas', 'stdlib')):
+            continue        # aware - aware: an elapsed interval, not arithmetic on the instant
+        aware, added = sides[0]
+        if isinstance(x.op, ast.Sub) and aware is x.right:
+            unknown.append((added, 'an instant is subtracted from something that is not an instant'))
+            continue
+        ka, kd = kind(aware), _added_kind(added)
+        inner = [y for y in ast.walk(aware) if id(y) in real]
+        if ka == 'number':
+            bad.append((added, 'the epoch seconds of', 'seconds added to an instant are elapsed time'))
+        elif ka == 'pandas':
+            if kd == 'calendar':
+                continue
+            if kd == 'elapsed' or kind(added) == 'number':
+                bad.append((added, '', 'a zone-aware pandas Timestamp adds elapsed time (exactly 24 h per day)'))
+            else:
+                unknown.append((added, 'added to a zone-aware pandas Timestamp; whether it counts elapsed time or calendar '
+                                'days is not known'))
+        elif ka == 'stdlib':
+            conv = [y for y in ast.walk(aware) if isinstance(y, ast.Call) and isinstance(y.func, ast.Attribute)
+                    and y.func.attr in ('astimezone', 'tz_convert') and any(id(w) in real for w in ast.walk(y.func.value))]
+            if conv and all(len(y.args) == 1 and _is_utc(y.args[0]) for y in conv):
+                bad.append((added, 'the UTC conversion of', 'once converted to UTC the zone\'s rules no longer apply to what is added'))
+            elif conv:
+                unknown.append((added, 'added after a zone conversion that is not followed'))
+            elif kd == 'elapsed' and all(call_name(zone_of[id(y)]).split('.')[-1] in ('ZoneInfo', 'gettz')
+                                         for y in inner if isinstance(zone_of[id(y)], ast.Call)) \
+                    and all(isinstance(zone_of[id(y)], ast.Call) for y in inner):
+                continue    # datetime + timedelta keeps tzinfo and moves the wall clock; ZoneInfo answers for the new date
+            else:
+                unknown.append((added, 'added to a zone-aware datetime whose zone object or addend is not recognised'))
+        else:
+            unknown.append((added, 'added to a localised value whose type (pandas Timestamp / datetime / number) is not known'))
+    if not bad and unknown:
+        ctx.undecided('C13-R3', sch, construct, f'`{norm(unknown[0][0])[:60]}`: {unknown[0][1]}')
+    if not bad:
+        ctx.ob('C13-R3', sch, construct, True, 'nothing that counts elapsed time is added to the instant once it carries its zone',
+               line=line)
+        return
+    added, what, because = bad[0]
+    offs = 'the arrival day offset' if {'day', 'offset'} <= _idents(added) else 'a wall-clock quantity of the schedule'
+    ctx.ob('C13-R3', sch, construct, False,
+           f'`{norm(added)[:60]}` is added to {what + " " if what else ""}the {role} instant after the {end} airport\'s zone was attached: '
+           f'{because}, but {offs} counts local calendar days / wall-clock time in the {end} zone.  When a daylight-saving change '
+           f'of that zone lies between the localised time and the result the stored UTC instant is one hour off; add it to the '
+           f'naive wall-clock value before the zone is attached', line=getattr(added, 'lineno', line))
 
 
 def _is_difference_of_instants(x, lset) -> bool:
@@ -2261,6 +2665,9 @@ class _Tok:
         return f'<{self.path}>'
 
 
+_GEOD_OBJECT = _Tok('Geod')
+
+
 class _DistInterp(_Interp):
     """the interpreter with the one library call the plausibility rule depends on replaced by a known answer:
     `<geod>.inv(lat/lon x 4)` returns (azimuth, azimuth, `metres`).  Statements evaluated for their effect only
@@ -2279,9 +2686,34 @@ class _DistInterp(_Interp):
         return super().eval(e, fi, sc)
 
     def eval_call(self, e, fi, sc):
-        if isinstance(e.func, ast.Attribute) and e.func.attr == 'inv' and len(e.args) == 4 and not e.keywords:
-            self.geod_calls += 1
-            return (47.0, -131.0, self.metres)     # forward / back azimuth [deg], distance [m]
+        if call_name(e).split('.')[-1] == 'Geod':
+            return _GEOD_OBJECT
+        if isinstance(e.func, ast.Attribute) and e.func.attr == 'inv':
+            try:
+                recv = self.eval(e.func.value, fi, sc)
+            except _Undecidable:
+                # an object the interpreter does not have (an attribute of the database): a geodesic by its name
+                t = e.func.value
+                recv = _GEOD_OBJECT if 'geod' in (t.attr if isinstance(t, ast.Attribute) else t.id if isinstance(t, ast.Name) else '').lower() \
+                    else None
+            if recv is _GEOD_OBJECT:
+                # four coordinate slots in degrees, however they are written: positional, `*pair`, or by slot name
+                n = 0
+                for a in e.args:
+                    if isinstance(a, ast.Starred):
+                        n += len(self.iterate(self.eval(a.value, fi, sc)))
+                    else:
+                        self.eval(a, fi, sc)
+                        n += 1
+                for k in e.keywords:
+                    if k.arg not in GEOD_SIG['inv'][1]:
+                        raise _Undecidable(f'inverse-geodesic call with `{k.arg}=`')
+                    self.eval(k.value, fi, sc)
+                    n += 1
+                if n != 4:
+                    raise _Undecidable(f'inverse-geodesic call with {n} coordinate arguments')
+                self.geod_calls += 1
+                return (47.0, -131.0, self.metres)     # forward / back azimuth [deg], distance [m]
         return super().eval_call(e, fi, sc)
 
     def exec(self, st, fi, sc):
